@@ -207,6 +207,8 @@ func frameOf(cr *gw.Crash) string {
 type keyT struct{ key, class string }
 
 type prog struct {
+	// versioned buckets: every acknowledged upload with the version id it got (for copies from non-current versions)
+	vers map[string][]verRec
 	w      *world
 	id     string
 	idx    int
@@ -473,6 +475,11 @@ func (p *prog) step() {
 }
 
 // install records an acknowledged upload in the reference and verifies the key.
+type verRec struct {
+	vid string
+	o   *obj
+}
+
 func (p *prog) install(k keyT, o *obj, g int) {
 	o.keyClass = k.class
 	o.writer = g
@@ -503,6 +510,16 @@ func (p *prog) install(k keyT, o *obj, g int) {
 	stat("acked_by_size_class", o.sizeClass)
 	stat("acked_by_config", p.w.cf.name)
 	p.verify(k.key)
+	if p.bv && !p.w.fatal {
+		if h := p.w.client(g).HeadObject(p.bucket, k.key); h.OK() {
+			if vid := h.Header.Get("X-Amz-Version-Id"); vid != "" && vid != "null" {
+				if p.vers == nil {
+					p.vers = map[string][]verRec{}
+				}
+				p.vers[k.key] = append(p.vers[k.key], verRec{vid, o})
+			}
+		}
+	}
 }
 
 func (p *prog) histOf(key string) *keyHist {
@@ -972,6 +989,23 @@ func (p *prog) opCopy() {
 	}
 	src := p.model[srcKey]
 	dst := p.pickKey()
+	// versioned bucket: one copy in three names a NON-CURRENT version of some key as its source - data, content
+	// headers, metadata and tags of the copy are those of that version, not of what the key holds now
+	fromVid := ""
+	if p.bv && r.Intn(3) == 0 {
+		var cands []string
+		for _, kk := range p.keys {
+			if len(p.vers[kk.key]) >= 2 && kk.key != dst.key {
+				cands = append(cands, kk.key)
+			}
+		}
+		if len(cands) > 0 {
+			srcKey = cands[r.Intn(len(cands))]
+			vs := p.vers[srcKey]
+			rec := vs[r.Intn(len(vs)-1)] // any but the newest
+			src, fromVid = rec.o, rec.vid
+		}
+	}
 	self := dst.key == srcKey
 	md := []string{"", "COPY", "REPLACE"}[r.Intn(3)]
 	if self && r.Intn(4) != 0 {
@@ -990,6 +1024,9 @@ func (p *prog) opCopy() {
 	o.enc = "copy-" + lbl(md) + "+tag-" + lbl(td)
 	if self {
 		o.enc = "self" + o.enc
+	}
+	if fromVid != "" {
+		o.enc = "version-" + o.enc
 	}
 	md5tag := `"` + s3c.MD5Hex(src.body) + `"`
 	o.etag = md5tag
@@ -1027,6 +1064,9 @@ func (p *prog) opCopy() {
 	cs := s3c.URIEncode(p.bucket+"/"+srcKey, false)
 	if r.Intn(2) == 0 {
 		cs = "/" + cs
+	}
+	if fromVid != "" {
+		cs += "?versionId=" + fromVid
 	}
 	hdr = append(hdr, [2]string{"X-Amz-Copy-Source", cs})
 	if md != "" {
@@ -1104,6 +1144,9 @@ func (p *prog) opPutTagging() {
 	}
 	n.writer, n.epoch, n.opIdx = g, p.epoch, p.opIdx
 	p.model[key] = n
+	if vs := p.vers[key]; len(vs) > 0 && vs[len(vs)-1].o == o {
+		vs[len(vs)-1].o = n // the version that is current keeps its id; its tag set is the new one
+	}
 	c.Add("tag_writes_acked", 1)
 	p.verify(key)
 }
@@ -1137,6 +1180,9 @@ func (p *prog) opDeleteTagging() {
 	}
 	n.writer, n.epoch, n.opIdx = g, p.epoch, p.opIdx
 	p.model[key] = n
+	if vs := p.vers[key]; len(vs) > 0 && vs[len(vs)-1].o == o {
+		vs[len(vs)-1].o = n // the version that is current keeps its id; its tag set is the new one
+	}
 	c.Add("tag_writes_acked", 1)
 	p.verify(key)
 }
